@@ -806,3 +806,11 @@ package types
 //@   loop 1:
 //@     invariant 0 <= iter && iter <= len(commit.Signatures) && len(bs) == len(commit.Signatures) && fresh(bs)
 //@     invariant forall k int :: 0 <= k && k < iter ==> content(bs[k]) == kproto.commitSigBytes(commit.Signatures[k].BlockIDFlag, content(commit.Signatures[k].ValidatorAddress), commit.Signatures[k].Timestamp, content(commit.Signatures[k].Signature))
+
+// Block accessors as functions of the block object (blocks are immutable once built).
+//@ spec func blockHeightOf(b *Block) int
+//@ spec func lastCommitOf(b *Block) *Commit
+//@ trusted func (b *Block) Height() (r uint64)
+//@   ensures r == blockHeightOf(b)
+//@ trusted func (b *Block) LastCommit() (r *Commit)
+//@   ensures r == lastCommitOf(b)
